@@ -392,6 +392,24 @@ def return_shape_mismatches(prog: Program, f: Func) -> list[tuple[ast.AST, str]]
                 g = prog.method(owner.cls, fn.attr)
         if g is None or any("contextmanager" in norm(d) for d in g.node.decorator_list):
             continue
+        out.extend(return_shape_problems(g.node, g.key, want, f.key))
+    return out
+
+
+def return_shape_problems(gnode: ast.AST, gkey: str, want: int, fkey: str) -> list[tuple[ast.AST, str]]:
+    """returns of helper `gnode` that cannot be unpacked into `want` names (shared with sa/inline.py, which asks the same
+    question before it dissolves an unreviewed helper into its caller)"""
+    out = []
+
+    class _G:
+        node = gnode
+        key = gkey
+
+    class _F:
+        key = fkey
+
+    g, f = _G, _F
+    if True:
         for r in walk_no_nested(g.node):
             if not isinstance(r, ast.Return) or r.value is None:
                 continue
